@@ -222,6 +222,10 @@ func (pr *vfProxyRun) learnQuiet(b *vfBench, rc *vfRecipe, layout int) {
 	case "hop.p1real":
 		b.inject(0, 2, g.ip("10.0.1.1"), 5070, mk(g.ip("10.0.1.4"), g.ip("10.0.1.5")), nil)
 		b.inject(0, 2, g.ip("10.0.1.2"), 33000, mk(g.ip("10.0.1.2")), nil)
+	case "hop.bk":
+		b.inject(0, 0, g.ip("10.0.4.1"), 5060, mk(g.ip("10.0.1.1"), g.ip("10.0.1.4"), "n1.example.com"), nil)
+	case "ua.p1real":
+		b.inject(0, 2, g.ip("10.0.2.1"), 5062, mk(g.ip("10.0.2.1")), nil)
 	case "hop.p2":
 		b.inject(1, 0, g.ip("10.0.1.1"), 5070, mk(g.ip("10.0.1.5")), nil)
 	}
